@@ -237,3 +237,98 @@ Proof.
   destruct (acceptable tc c) eqn:E; [exact H1|].
   destruct (H2 eq_refl) as [e He]. rewrite He in Ha. discriminate.
 Qed.
+
+(* ------------------------------------------------------------------ what add_config may do to a configuration *)
+(* The requested variables of a configuration, in order: the typed ones, then the names still waiting for
+   their type.  add_config never duplicates, drops or reorders a name: it only moves pending names (all of
+   them, in order) to the end of the typed list. *)
+Definition name_seq (c : cfg) : list Z := map v_name (c_vars c) ++ c_dfa c.
+
+(* c' continues c: the typed list grew by rs, whose names were the first pending ones *)
+Definition extends (c c' : cfg) : Prop :=
+  exists rs, c_vars c' = c_vars c ++ rs /\ map v_name rs ++ c_dfa c' = c_dfa c.
+
+Lemma extends_refl c : extends c c.
+Proof. exists []. split; [now rewrite app_nil_r|reflexivity]. Qed.
+
+Lemma extends_trans a b c : extends a b -> extends b c -> extends a c.
+Proof.
+  intros (r1 & A1 & B1) (r2 & A2 & B2). exists (r1 ++ r2). split.
+  - rewrite A2, A1. now rewrite app_assoc.
+  - rewrite map_app, <- app_assoc, B2. exact B1.
+Qed.
+
+Lemma extends_name_seq c c' : extends c c' -> name_seq c' = name_seq c.
+Proof.
+  intros (rs & A & B). unfold name_seq. rewrite A, map_app, <- app_assoc, B. reflexivity.
+Qed.
+
+Lemma resolve_dfa_names tc names vs : resolve_dfa tc names = Some vs -> map v_name vs = names.
+Proof.
+  rewrite resolve_dfa_spec. destruct (forallb (in_tocb tc) names); [|discriminate].
+  intros H. inversion H. rewrite map_map. rewrite <- (map_id names) at 2. apply map_ext.
+  intros n. unfold resolved_var. destruct (toc_by_complete_name tc n); reflexivity.
+Qed.
+
+Lemma extends_valid c c' b : extends c c' -> extends c (set_valid c' b).
+Proof. intros (rs & A & B). exists rs. auto. Qed.
+
+Lemma gsb s b h : get (set_blocks s b) h = get s h. Proof. reflexivity. Qed.
+Lemma gsc s b h : get (set_counter s b) h = get s h. Proof. reflexivity. Qed.
+
+(* every outcome of add_config: configuration h continues its old self, log_blocks and the id counter
+   change only on acceptance, callbacks only on acceptance, nothing is ever sent *)
+Lemma add_config_effect s h : valid_h s h = true ->
+  let '(s1, o, a) := add_config s h in
+  extends (get s h) (get s1 h) /\
+  (forall h', h' <> h -> get s1 h' = get s h') /\
+  (a <> AccAccepted -> o = [] /\ s_blocks s1 = s_blocks s /\ s_counter s1 = s_counter s /\
+                       c_id (get s1 h) = c_id (get s h) /\ c_cf (get s1 h) = c_cf (get s h)) /\
+  (a = AccAccepted -> c_dfa (get s1 h) = []).
+Proof.
+  intros Hv. unfold add_config. destruct (negb (s_link s)).
+  { repeat split; auto using extends_refl; intros; congruence. }
+  set (c := get s h).
+  assert (G : forall s' c', valid_h s' h = true -> get (put s' h c') h = c').
+  { intros. now apply get_put_same. }
+  assert (G' : forall s' c' h', h' <> h -> get (put s' h c') h' = get s' h').
+  { intros. apply get_put_other. congruence. }
+  assert (R1 : forall r1 : res cfg,
+            match c_dfa c with
+            | [] => Ok c
+            | _ :: _ => match s_toc s with
+                        | None => Err AttributeError
+                        | Some tc => match resolve_dfa tc (c_dfa c) with
+                                     | None => Err KeyError
+                                     | Some vs => Ok (set_dfa (set_vars c (c_vars c ++ vs)) [])
+                                     end
+                        end
+            end = r1 ->
+            match r1 with
+            | Ok c1 => extends c c1 /\ c_dfa c1 = [] /\ c_id c1 = c_id c /\ c_cf c1 = c_cf c
+            | Err _ => True
+            end).
+  { intros r1 <-. destruct (c_dfa c) as [|n r] eqn:Ed.
+    - repeat split; auto using extends_refl.
+    - destruct (s_toc s) as [tc|]; [|exact I]. destruct (resolve_dfa tc (n :: r)) as [vs|] eqn:Er; [|exact I].
+      repeat split. exists vs. cbn [c_vars c_dfa set_dfa set_vars]. split; [reflexivity|].
+      rewrite app_nil_r, Ed. now apply resolve_dfa_names in Er. }
+  specialize (R1 _ eq_refl).
+  destruct (match c_dfa c with [] => Ok c | _ :: _ => _ end) as [c1|e].
+  - destruct R1 as (X & Xd & Xi & Xc).
+    destruct (check_vars (s_toc s) (c_vars c1) 0).
+    + destruct ((size <=? g_max_len) && period_ok (c_period c1)).
+      * rewrite gsb, gsc, G by exact Hv. repeat split;
+          try (match goal with H : ?x <> ?x |- _ => now elim H end).
+        -- destruct X as (rs & A & B). exists rs. auto.
+        -- intros h' Hn. rewrite gsb, gsc. now apply G'.
+        -- intros _. exact Xd.
+      * rewrite G by exact Hv. repeat split; auto using extends_valid; try discriminate;
+        try (intros h' Hn; now apply G').
+    + rewrite G by exact Hv. repeat split; auto; try discriminate; try (intros h' Hn; now apply G').
+    + rewrite G by exact Hv. repeat split; auto using extends_valid; try discriminate; try (intros h' Hn; now apply G').
+    + rewrite G by exact Hv. repeat split; auto; try discriminate; try (intros h' Hn; now apply G').
+  - destruct e; try (rewrite G by exact Hv; repeat split; auto using extends_valid, extends_refl; try discriminate;
+                     intros h' Hn; now apply G').
+    repeat split; auto using extends_refl; discriminate.
+Qed.
